@@ -785,6 +785,7 @@ def analyse(rep: Report) -> None:
     rep.rule('R04.6', 'FieldReader.read() result is never used as a value', floor=1)
     rep.rule('R04.7', 'a bit-level FieldWriter is flushed once, by the function that made it', floor=2)
     rep.rule('R04.8', 'the avcC extension block is read for every H.264 profile that carries one', floor=1)
+    rep.rule('R04.11', 'a box without payload can be parsed through the windowed reader in rw mode (rule of C16)', floor=1)
     rep.rule('R04.10', 'the raw header kept for a lazily loaded box holds every byte the header parser consumed', floor=1)
     rep.rule('R04.9', 'descriptor size bytes written by Descriptor.encode are read back as the same size', floor=12)
     idx = Index(rep.repo, 'dashlive')
@@ -797,6 +798,14 @@ def analyse(rep: Report) -> None:
     r04_8(rep)
     r04_9(rep)
     r04_10(rep)
+    # parsing in rw mode through the project's reader: the payload is peeked at only where it is not empty (C16's rule)
+    from ..core import lift
+    from . import c16 as _c16
+
+    def _run(sub):
+        sub.rule('R16.16', 'a payload is peeked at only where its length is positive (BufferedReader.peek asserts it)', floor=0)
+        _c16.r16_16(sub)
+    lift(rep, 'R04.11', 'C16', _run, ('R16.16',), f'{MP4}::Mp4Atom.load', 'a box without payload is parsed in rw mode like any other')
     # registry: every @fourcc class has a pair or inherits one
     mod = idx.by_rel[MP4]
     reg = [c for c in mod.classes.values()
